@@ -48,6 +48,7 @@ def gen_spec(rng):
     if rng.random() < 0.55:
         ests = [["mean", "stddev"], ["stddev", "mean"], ["mean", "stddev", "mean"], ["stddev"]][int(rng.integers(4))]
         spec["estimators"] = ests
+        spec["estimator_spelling"] = int(rng.integers(4))       # stddev / default/stddev / Default/Stddev / STDDEV
         spec["omap_est"] = [int(x) for x in rng.integers(0, len(ests), size=n_obj)]
         if n_con and rng.random() < 0.8:
             spec["cmap_est"] = [int(x) for x in rng.integers(0, len(ests), size=n_con)]
@@ -156,7 +157,7 @@ def expected_functions(obs, spec, cfg, res, objs, cons):
     if not np.array_equal(rep_failed, failed):
         obs.violation("failed_flags", reported=rep_failed, expected=failed)
         return False
-    enough = int((~failed).sum()) >= cfg.realizations.realization_min_success
+    enough = int((~failed).sum()) >= ens.rmin_of(spec)
     if not enough:
         obs.count("below_min_success")
         obs.check(res.functions is None, "functions_reported_below_min_success")
@@ -169,7 +170,7 @@ def expected_functions(obs, spec, cfg, res, objs, cons):
         elif why:
             obs.count("functions_missing_explained_by_filter_or_estimator")
         else:
-            obs.violation("functions_missing", failed=failed, rmin=int(cfg.realizations.realization_min_success), filters=spec.get("filters"),
+            obs.violation("functions_missing", failed=failed, rmin=ens.rmin_of(spec), filters=spec.get("filters"),
                           estimators=spec.get("estimators"))
         return False
     if failed.all():
